@@ -11,7 +11,7 @@
 import argparse, json, os, shutil, subprocess, sys, tempfile, time
 
 VERIF = os.path.dirname(os.path.dirname(os.path.abspath(__file__)))
-REPO = '/repo'
+REPO = os.environ.get('VERIF_REPO', '/repo')
 
 
 def sh(cmd, **kw):
@@ -173,6 +173,7 @@ def main():
     bc = sub.add_parser('benign-confirm'); bc.add_argument('name'); bc.add_argument('prop'); bc.add_argument('patch'); bc.add_argument('--notes', default='')
     br = sub.add_parser('benign-run'); br.add_argument('name'); br.add_argument('--checks', default=''); br.add_argument('--tier', default='quick')
     bra = sub.add_parser('benign-runall'); bra.add_argument('--tier', default='quick'); bra.add_argument('--only-missing', action='store_true')
+    bx = sub.add_parser('benign-cross'); bx.add_argument('--tier', default='quick'); bx.add_argument('--only-missing', action='store_true'); bx.add_argument('names', nargs='*')
     a = ap.parse_args()
     if a.cmd == 'confirm':
         return confirm(a)
@@ -191,6 +192,24 @@ def main():
         return benign_confirm(a)
     if a.cmd == 'benign-run':
         run_one(a.name, [x for x in a.checks.split(',') if x], a.tier, kind='benign')
+        return 0
+    if a.cmd == 'benign-cross':
+        # every benign change is also run against the checks of the OTHER properties whose anchor files it touches
+        import re
+        props = {}
+        for l in open(os.path.join(VERIF, 'properties.jsonl')):
+            p = json.loads(l)
+            props[p['id']] = set(p['anchors']['files'])
+        for name in sorted(os.listdir(os.path.join(VERIF, 'benign'))):
+            d = os.path.join(VERIF, 'benign', name)
+            if not os.path.exists(d + '/meta.json') or (a.names and name not in a.names):
+                continue
+            meta = json.load(open(d + '/meta.json'))
+            files = set(re.findall(r'^\+\+\+ b/(\S+)', open(d + '/patch.diff').read(), re.M))
+            todo = [q for q in sorted(props) if q != meta['property'] and props[q] & files
+                    and not (a.only_missing and (q + ':' + a.tier) in meta.get('checks', {}))]
+            if todo:
+                run_one(name, todo, a.tier, kind='benign')
         return 0
     if a.cmd == 'benign-runall':
         for name in sorted(os.listdir(os.path.join(VERIF, 'benign'))):
